@@ -149,6 +149,39 @@ def sites_offbyone():
                 out.append({"file": rel, "line": i + 1, "col": m.start(), "op": m.group(1).strip(), "new": m.group(1).strip()[0] + " 0", "checks": checks, "text": st[:140]})
     return out
 
+def sites_guards():
+    """validation guards of the decoder: `if COND { ... return Err(..) ... }` with COND replaced by false (the check is
+    gone). Acceptance of invalid input is not a property violation by itself; a panic, hang or unbounded expansion
+    that becomes reachable is - the question is whether C03 / C05 (and the parsers' accept/reject oracles) notice."""
+    out = []
+    for rel, checks in FILES:
+        if not any(x in rel for x in ["decoding/", "blocks/", "fse_decoder", "huff0_decoder"]):
+            continue
+        p = os.path.join("/repo", rel)
+        if not os.path.exists(p):
+            continue
+        lines = open(p).read().split("\n")
+        for i, l in enumerate(lines):
+            st = l.strip()
+            if st.startswith("#[cfg(test)]"):
+                break
+            if re.match(r'^\s*if (?!let )(.*) \{\s*$', l) and "assert" not in l:
+                indent = len(l) - len(l.lstrip())
+                j, found = i + 1, False
+                while j < len(lines) and j < i + 12:
+                    if lines[j].startswith(" " * indent + "}"):
+                        break
+                    if "return Err(" in lines[j]:
+                        found = True
+                    j += 1
+                if found and j < len(lines) and lines[j].strip() == "}":
+                    cs = list(checks)
+                    for extra in ("C03", "C05"):
+                        if extra not in cs:
+                            cs.append(extra)
+                    out.append({"file": rel, "line": i + 1, "col": l.index("if "), "op": "guard", "new": "false", "checks": cs, "text": st[:140]})
+    return out
+
 def summary():
     rows = []
     for f in sorted(glob.glob(os.path.join(VERIF, "mutants", "sweep", "*.jsonl"))):
@@ -183,7 +216,7 @@ def main():
             if l.strip():
                 r = json.loads(l); done.add((r["file"], r["line"], r["col"], r["new"]))
     mode = a[a.index("--mode") + 1] if "--mode" in a else "operators"
-    all_sites = sites_delete() if mode == "delete" else sites_offbyone() if mode == "offbyone" else sites()
+    all_sites = sites_delete() if mode == "delete" else sites_offbyone() if mode == "offbyone" else sites_guards() if mode == "guards" else sites()
     mine = [s for k, s in enumerate(all_sites) if k % nsh == shard]
     if "--part" in a:
         j, m = map(int, a[a.index("--part") + 1].split("/"))
@@ -210,6 +243,10 @@ def main():
         line = lines[s["line"] - 1]
         if s["op"] == "delete":
             lines[s["line"] - 1] = ""
+        elif s["op"] == "guard":
+            k = s["col"]
+            assert line[k:k + 3] == "if ", (s, line)
+            lines[s["line"] - 1] = line[:k] + "if false && " + line[k + 3:]
         elif s["op"] in ("+ 1", "- 1"):
             k = s["col"]
             assert line[k:k + 4] == " " + s["op"], (s, line)
